@@ -42,6 +42,12 @@ func (s *slowSink) Write(b []byte) (int, error) {
 	return len(b), nil
 }
 
+// c03Fields: a message, a scalar, and values that the text layout renders through its nested JSON encoder (arrays, objects)
+func c03Fields(g, n, size int) []log.Field {
+	return []log.Field{log.Msg(c03Payload(g, n, size)), log.Int("g", g), log.Ints("seq", []int{g, n, g + n}),
+		log.Object("o", log.Int("n", n), log.Strings("s", []string{"a", fmt.Sprint(g)})), log.Ints("empty", []int{})}
+}
+
 func c03Payload(g, n, size int) string {
 	return fmt.Sprintf("<id:%d.%d>%s|%d", g, n, strings.Repeat(string(rune('a'+(g+n)%26)), size), size)
 }
@@ -129,7 +135,7 @@ func runC03(cases []string, out *bufio.Writer, _ []string) {
 			go func(g int) {
 				defer wg.Done()
 				for i := 0; i < ne; i++ {
-					log.Info(ctx, tag, log.Msg(c03Payload(g, i, size(g, i))), log.Int("g", g))
+					log.Info(ctx, tag, c03Fields(g, i, size(g, i))...)
 					if sink == "rolling" && i%8 == 7 { // stretch the run over at least one real rotation boundary (1 s interval)
 						time.Sleep(time.Duration(1300*8/ne) * time.Millisecond)
 					}
@@ -160,7 +166,7 @@ func runC03(cases []string, out *bufio.Writer, _ []string) {
 		for g := 0; g < ng; g++ {
 			for i := 0; i < ne; i++ {
 				ev := &log.Event{Level: log.InfoLevel, Time: time.Date(2025, 6, 1, 0, 0, 0, 0, time.UTC), Tag: "_c03_probe",
-					Fields: []log.Field{log.Msg(c03Payload(g, i, size(g, i))), log.Int("g", g)}}
+					Fields: c03Fields(g, i, size(g, i))}
 				if withCtx {
 					ev.CtxFields = []log.Field{log.String("req", "r-1"), log.Int("tenant", 42)}
 				}
